@@ -66,3 +66,36 @@ pub fn run2(k: &str, a: &Value) -> Option<Value> {
         _ => return None,
     })
 }
+
+pub fn run3(k: &str, a: &Value) -> Option<Value> {
+    use engeom::common::BestFit;
+    use engeom::func1::Polynomial;
+    Some(match k {
+        "from_3_points" => match Circle2::from_3_points(p2(&a["p0"]), p2(&a["p1"]), p2(&a["p2"])) {
+            Ok(c) => json!([fo(c.x()), fo(c.y()), fo(c.r())]),
+            Err(_) => Value::Null,
+        },
+        "poly_fit" => {
+            let xs = fv(&a["xs"]);
+            let ys = fv(&a["ys"]);
+            let w: Option<Vec<f64>> = if a["w"].is_null() { None } else { Some(fv(&a["w"])) };
+            let kk = a["K"].as_u64().unwrap();
+            let c: Vec<f64> = match kk {
+                2 => Polynomial::<2>::least_squares(&xs, &ys, w.as_deref()).c.to_vec(),
+                3 => Polynomial::<3>::least_squares(&xs, &ys, w.as_deref()).c.to_vec(),
+                4 => Polynomial::<4>::least_squares(&xs, &ys, w.as_deref()).c.to_vec(),
+                _ => panic!("K"),
+            };
+            json!(c.iter().map(|v| fo(*v)).collect::<Vec<_>>())
+        }
+        "circle_fit_eval" => {
+            let pts: Vec<Point2> = a["pts"].as_array().unwrap().iter().map(p2).collect();
+            let mode = if a["sigma"].is_null() { BestFit::All } else { BestFit::Gaussian(f(&a["sigma"])) };
+            let x = if a["x"].is_null() { None } else { let v = fv(&a["x"]); Some([v[0], v[1], v[2]]) };
+            let (r, j, w) = engeom::verif_hooks::circle_fit_eval(&pts, &circle(&a["initial"]), mode, x);
+            json!({"residuals": r.iter().map(|v| fo(*v)).collect::<Vec<_>>(), "jacobian": j.iter().map(|row| row.iter().map(|v| fo(*v)).collect::<Vec<_>>()).collect::<Vec<_>>(),
+                   "weights": w.iter().map(|v| fo(*v)).collect::<Vec<_>>()})
+        }
+        _ => return None,
+    })
+}
